@@ -271,6 +271,15 @@ def streams(pid, tier, seed):
         add("ext", ext_stream(seed, 30000 if q else 500000))
         add("edges", gen.sweep_edges())
         add("sweepC", gen.sweep_block_c(stride(32, 2), seed))
+        # the same reception patterns with the extended check switched on and off along the way
+        st = gen.station_stream(seed + 21, 10000 if q else 150000)
+        rr = random.Random(seed + 22)
+        st2 = []
+        for l in st:
+            st2.append(l)
+            if l.startswith("p ") and rr.random() < 0.01: st2.append("x %d" % rr.randrange(2))
+            if l == "new": st2.append("x 1")
+        add("station", st2[:1] + ["x 1"] + st2[1:])
     elif pid == "C10":
         add("sweepC", gen.sweep_block_c(stride(8, 1), seed))
         add("afhist", gen.sweep_af_histories())
